@@ -20,6 +20,7 @@ import SarpyModel.Spec.OpenerVendor
       and either state of the two reader defects; with the repaired reader the fallback ComplexNITFReader takes the file iff an
       image segment is complex-like, otherwise the general NITF reader does; symbol / label counts never matter.
 -/
+set_option linter.unusedSimpArgs false
 namespace Sarpy.Props.C14
 open Sarpy.Spec.Opener
 
@@ -461,5 +462,211 @@ theorem missing_path_rejects (order : List Vendor) (ha : w.arg = .path) (hk : w.
     entryGuardFails, entryShape, ha, hk, cascade]
 
 end full
+
+/-! ### directories -/
+
+section dirs
+variable (p : Policy2) (w : World) (d : Desc) (deep : Vendor → Decision)
+
+/-- a directory argument has no signature: the descriptor of a directory is the empty one -/
+def dirDesc : Desc := { magic := .none, images := [], graphics := 0, des := [] }
+
+/-- the family openers on a directory: NITFDetails / CPHDDetails / CRSDDetails / SIODetails start with `os.path.isfile`;
+    in the model: the sio guard table, and magic `none` for the others -/
+theorem dir_rejects_full (order : List Vendor) (ha : w.arg = .path) (hk : w.kind = .dir) (hpn : w.palsarNamed = false)
+    (hdp : w.dirProduct = false) (hdm : w.dirManifest = false) (hdx : w.dirXml = .none) :
+    (∀ v, isAV p w dirDesc deep v = .reject) ∧
+    openComplexWith order p w dirDesc deep = .reject ∧ openTopV p w dirDesc deep = .reject := by
+  have hall : ∀ v, isAV p w dirDesc deep v = .reject := by
+    intro v
+    cases hv : v.foreign with
+    | true => exact foreign_rejects_dir w dirDesc _ v hv hk hpn hdp hdm hdx
+    | false =>
+      cases v <;> first | (exact absurd hv (by decide)) | skip
+      all_goals
+        simp [isAV, isA, tab, firstFiring, evalCond, evalAtom, catches, vendorDeep, World.regular, ha, hk, dirDesc, sicdIsA,
+          sicdDetails, containerOk, nitfOk, seen, desSeen, finalDeep, finalAttempt, openProduct, siddDetails, openPhaseHistory,
+          openReceived, openGeneral]
+  have hg : ∀ g, entryGuardFails g w = false := by intro g; cases g <;> simp [entryGuardFails, ha, hk]
+  have hc : ∀ o, openComplexWith o p w dirDesc deep = .reject := by
+    intro o
+    simp only [openComplexWith, hg, Bool.false_eq_true, if_false]
+    apply cascade_all_reject
+    intro x hx
+    rcases List.mem_append.1 hx with h | h
+    · obtain ⟨v, _, rfl⟩ := List.mem_map.1 h; exact hall v
+    · simp only [List.mem_singleton] at h; rw [h]; exact hall _
+  refine ⟨hall, hc order, ?_⟩
+  simp [openTopV, topOrder, openEntryV, openComplexV, hc, openProductV, openPhaseHistoryV, openReceivedV, openGeneralV, hg,
+    productOrder, phaseHistoryOrder, receivedOrder, generalOrder, hall, cascade]
+
+end dirs
+
+/-! ## NITF 2.0 containers -/
+
+section nitf20
+variable (p : Policy2) (d : Desc)
+
+theorem neutral_scan_skip (e : Des) (h : neutral e = true) : sicdScan e = .skip := by
+  cases e with
+  | mk id body => cases id <;> cases body <;> first | rfl | (exact absurd h (by decide))
+
+theorem neutral_not_sidd (e : Des) (h : neutral e = true) : isSiddDoc e = false := by
+  cases e with
+  | mk id body => cases id <;> cases body <;> first | rfl | (exact absurd h (by decide))
+
+theorem garbled_neutral : neutral garbled = true := by decide
+
+theorem findSicd_none_of_neutral (l : List Des) (h : ∀ e ∈ l, neutral e = true) : findSicd l = none :=
+  (findSicd_none_iff l).2 (Or.inl (fun x hx => neutral_scan_skip x (h x hx)))
+
+/-- what the reader locates keeps "no SICD / SIDD document anywhere": a DES read at a wrong offset is neutral -/
+theorem desSeen_neutral (h : ∀ e ∈ d.des, neutral e = true) : ∀ e ∈ desSeen p d, neutral e = true := by
+  intro e he
+  unfold desSeen at he
+  split at he
+  · obtain ⟨_, _, rfl⟩ := List.mem_map.1 he
+    exact garbled_neutral
+  · exact h e he
+
+/-- **a NITF 2.0 (or 2.1) container without SICD / SIDD document** - any image segments, any number of symbol / label
+    segments, any number of additional DES that carry no such document - is rejected by sicd.is_a and by open_product, in
+    either state of the two NITF 2.0 reader defects -/
+theorem nitf_without_family_des_rejects (h : ∀ e ∈ d.des, neutral e = true) :
+    sicdIsA (seen p d) = .reject ∧ openProduct p.base (seen p d) = .reject := by
+  have hn := desSeen_neutral p d h
+  have h1 : findSicd (desSeen p d) = none := findSicd_none_of_neutral _ hn
+  have h2 : (findSidd (desSeen p d)).1 = [] :=
+    findSiddFrom_fst_nil 0 _ (fun e he => neutral_not_sidd e (hn e he))
+  constructor
+  · simp [sicdIsA, sicdDetails, seen, h1]
+  · simp [openProduct, siddDetails, seen, h2]
+
+/-- complex-like image segment present and no integer SAR segment in front of the decision (Spec.Opener.finalAttempt) -/
+def complexLike (d : Desc) : Bool := !d.images.any isSiddSeg && d.images.any (· == .sicdSeg)
+
+/-- **NITF 2.0 fallback with the repaired reader** (`extract_sicd` accepts the 2.0 subheader): for a 2.0 container without
+    SICD / SIDD document handed over as a path in a `writtenPlace`, open_complex returns the fallback ComplexNITFReader exactly
+    when an image segment is complex-like (and no integer SAR segment makes extract_sicd refuse), otherwise rejects;
+    open_product / open_phase_history / open_received reject; open_general takes it as a plain NITF; `sarpy.io.open` returns the
+    fallback reader if there is one and the general NITF reader otherwise - for any number of symbol and label segments and
+    either state of the offset defect -/
+theorem nitf20_fallback (w : World) (deep : Vendor → Decision) (hm : d.magic = .nitf20) (hi : d.images ≠ [])
+    (h : ∀ e ∈ d.des, neutral e = true) (hrep : p.nitf20SarRaises = false)
+    (ha : w.arg = .path) (hok : worldOk w d = true) (hp : writtenPlace w = true) :
+    openComplexV p w d deep = (if complexLike d then .accept .complexNitf else .reject) ∧
+    openProductV p w d deep = .reject ∧ openPhaseHistoryV p w d deep = .reject ∧ openReceivedV p w d deep = .reject ∧
+    openGeneralV p w d deep = .accept .nitf ∧
+    openTopV p w d deep = (if complexLike d then .accept .complexNitf else .accept .nitf) := by
+  have hne : d.magic ≠ .none := by rw [hm]; decide
+  have hk : w.arg = .fileobj ∨ w.kind = .file := by
+    simp only [writtenPlace, Bool.and_eq_true, Bool.or_eq_true, beq_iff_eq] at hp
+    exact hp.1.1
+  have hf : ∀ v, v.foreign = true → isAV p w d deep v = .reject :=
+    fun v hv => foreign_rejects_signed w d _ v hv hne hok hp
+  obtain ⟨hs, hpr⟩ := nitf_without_family_des_rejects p d h
+  have hsio : isAV p w d deep .sio = .reject := by
+    rw [isAV_sio p w d deep hk hok]; simp [sioIsA, hm]
+  have hfin : isAV p w d deep .finalAttempt = (if complexLike d then .accept .complexNitf else .reject) := by
+    have e1 : isAV p w d deep .finalAttempt = finalDeep p d := by
+      simp [isAV, isA, tab, firstFiring, evalCond, evalAtom, ha, vendorDeep]
+    rw [e1]
+    cases h1 : d.images.any isSiddSeg <;> cases h2 : d.images.any (· == .sicdSeg) <;>
+      simp [finalDeep, hrep, finalAttempt, nitfOk, hm, complexLike, h1, h2]
+  have hall : ∀ v ∈ complexOrder, isAV p w d deep v = .reject := by
+    intro v hv
+    rcases complexOrder_ok.2.2 v hv with h1 | h1 | h1
+    · exact hf v h1
+    · subst h1; rw [isAV_sicd]; exact hs
+    · subst h1; exact hsio
+  have hc : openComplexV p w d deep = (if complexLike d then .accept .complexNitf else .reject) := by
+    simp only [openComplexV, openComplexWith, guard_passes w hk, Bool.false_eq_true, if_false]
+    rw [cascade_append_rejects _ _ (by
+      intro x hx
+      obtain ⟨v, hv, rfl⟩ := List.mem_map.1 hx
+      exact hall v hv), hfin]
+    cases complexLike d <;> simp [cascade]
+  have hprod : openProductV p w d deep = .reject := by
+    simp [openProductV, guard_passes w hk, productOrder, isAV_sidd, hpr, cascade]
+  have hph : openPhaseHistoryV p w d deep = .reject := by
+    rw [openPhaseHistoryV_eq p w d deep hk]; simp [openPhaseHistory, hm]
+  have hrc : openReceivedV p w d deep = .reject := by
+    rw [openReceivedV_eq p w d deep hk]; simp [openReceived, hm]
+  have hge : openGeneralV p w d deep = .accept .nitf := by
+    rw [openGeneralV_eq p w d deep hk (hf .tiff rfl)]
+    cases hd : d.images with
+    | nil => exact absurd hd hi
+    | cons _ _ => simp [openGeneral, nitfOk, hm, hd]
+  refine ⟨hc, hprod, hph, hrc, hge, ?_⟩
+  simp only [openTopV, topOrder, List.map, openEntryV, hc, hprod, hph, hrc, hge]
+  cases complexLike d <;> simp [cascade]
+
+/-- with the repaired offset computation the number of symbol and label segments is invisible to every opener -/
+theorem symbols_labels_irrelevant (s l : Nat) (hrep : p.nitf20SkipsSymLab = false) :
+    seen p { d with symbols := s, labels := l } = { seen p d with symbols := s, labels := l } ∧
+    sicdIsA (seen p { d with symbols := s, labels := l }) = sicdIsA (seen p d) ∧
+    openProduct p.base (seen p { d with symbols := s, labels := l }) = openProduct p.base (seen p d) ∧
+    finalDeep p { d with symbols := s, labels := l } = finalDeep p d ∧
+    openGeneral { d with symbols := s, labels := l } = openGeneral d := by
+  refine ⟨?_, ?_, ?_, ?_, ?_⟩ <;>
+    simp [seen, desSeen, hrep, sicdIsA, sicdDetails, containerOk, openProduct, siddDetails, finalDeep, finalAttempt, openGeneral]
+
+end nitf20
+
+/-! ## satisfiable instances and witnesses -/
+
+/-- the reader as it stands in the tree this file was written against -/
+def current2 : Policy2 := { siddRefusesGraphics := false, nitf20SkipsSymLab := true, nitf20SarRaises := true }
+/-- ... and with the two NITF 2.0 defects repaired -/
+def repaired2 : Policy2 := { siddRefusesGraphics := false, nitf20SkipsSymLab := false, nitf20SarRaises := false }
+
+/-- a file written by sarpy, handed over by path under a plain name -/
+def plainFile (a : Arg) : World :=
+  { arg := a, kind := .file, name := .plain, len4 := true, head := .plain, big := false, xmlParses := false, probe := .none,
+    palsarNamed := false, dirProduct := false, dirManifest := false, dirXml := .none, h5py := true }
+
+example : worldOk (plainFile .path) (writeSicd [] 0) = true ∧ writtenPlace (plainFile .path) = true := by decide
+/-- the hypotheses of `exclusive_on_written_full` hold for the registration order of the code -/
+example : openComplexV current2 (plainFile .path) (writeSicd [⟨.other, .nonXml⟩] 1) (fun _ => .raises) = .accept .sicd := by decide
+example : openTopV current2 (plainFile .path) (writeSidd [] [0, 1] 1 0) (fun _ => .raises) = .accept .sidd := by decide
+/-- ... and for the reversed order -/
+example : openComplexWith complexOrder.reverse current2 (plainFile .fileobj) (writeSicd [] 0) (fun _ => .raises) = .accept .sicd := by
+  decide
+
+/-- necessity of `name ≠ product.xml` (finding `name-product-xml-parse-error`): a SICD written to a file called product.xml makes
+    radarsat.is_a raise before sicd.is_a is reached -/
+example : openComplexV current2 { plainFile .path with name := .productXml } (writeSicd [] 0) (fun _ => .reject) = .raises := by decide
+/-- under the name manifest.safe the Sentinel opener catches the parse error and the SICD opens -/
+example : openComplexV current2 { plainFile .path with name := .manifestSafe } (writeSicd [] 0) (fun _ => .reject) = .accept .sicd := by
+  decide
+/-- necessity of "no PALSAR-named entry": with one, the PALSAR reader decides (here: whatever `deep` says) before sicd.is_a -/
+example : openComplexV current2 { plainFile .path with palsarNamed := true } (writeSicd [] 0)
+    (fun v => if v = .palsar2 then .raises else .reject) = .raises := by decide
+
+/-- signature-less: an empty file; a two byte file "II" (finding `tiff-short-index-error`); "<?xml" in a file called x.xml
+    (finding `tsx-dangling-xml-declaration`); /dev/null (finding `special-file-value-error`) -/
+def blobDesc : Desc := { magic := .none, images := [], graphics := 0, des := [] }
+example : openTopV current2 { plainFile .path with len4 := false } blobDesc (fun _ => .raises) = .reject := by decide
+example : openTopV current2 { plainFile .path with len4 := false, head := .tiffShort } blobDesc (fun _ => .reject) = .raises := by decide
+example : openTopV current2 { plainFile .path with name := .xmlExt, probe := .declOpen } blobDesc (fun _ => .reject) = .raises := by
+  decide
+example : openTopV current2 { plainFile .path with kind := .special } blobDesc (fun _ => .reject) = .raises := by decide
+example : openTopV current2 { plainFile .path with kind := .dir } dirDesc (fun _ => .raises) = .reject := by decide
+
+/-- NITF 2.0: one complex-like and one non-SAR image segment, two symbol segments, one label, one XML DES that is no SICD -/
+def nitf20Desc : Desc :=
+  { magic := .nitf20, images := [.other, .sicdSeg], graphics := 0, des := [⟨.xmlData, .otherXml⟩], symbols := 2, labels := 1 }
+example : (∀ e ∈ nitf20Desc.des, neutral e = true) ∧ complexLike nitf20Desc = true ∧ worldOk (plainFile .path) nitf20Desc = true := by
+  decide
+example : openTopV repaired2 (plainFile .path) nitf20Desc (fun _ => .raises) = .accept .complexNitf := by decide
+example : openTopV repaired2 (plainFile .path) { nitf20Desc with images := [.other] } (fun _ => .raises) = .accept .nitf := by decide
+/-- negation witness (finding `nitf20-sar-image-attribute-error`): while extract_sicd raises on the 2.0 subheader, the same file makes
+    open_complex and `sarpy.io.open` raise -/
+example : openTopV current2 (plainFile .path) nitf20Desc (fun _ => .reject) = .raises := by decide
+/-- witness of the offset defect (`nitf20-symbol-label-offsets`): a SICD document in a 2.0 container is found only when no symbol /
+    label segment precedes it -/
+example : sicdIsA (seen current2 { nitf20Desc with des := [sicdDes] }) = .reject ∧
+    sicdIsA (seen repaired2 { nitf20Desc with des := [sicdDes] }) = .accept .sicd ∧
+    sicdIsA (seen current2 { nitf20Desc with des := [sicdDes], symbols := 0, labels := 0 }) = .accept .sicd := by decide
 
 end Sarpy.Props.C14
